@@ -8,15 +8,16 @@
     `PTable` — ports in table order, each with a structured name (`Pat` of C05: literal
     text, `#N`, optional trailing '/', optional `:types`), optionally a sub-table, every
     table with or without default handler — that is well formed (`PTable.WF`): names of
-    the documented form without `{}` groups, characters below 127; a port with a sub-table
+    the documented form without `{}` groups (any byte but NUL and the pattern syntax
+    `# { * :`, also bytes >= 127: fixes/C04-06); a port with a sub-table
     is named `component/` (one component: the recursion callbacks cut exactly one,
     `SNIP`).  `PPorts.render` is the `Ports` object the code sees.  Tables of any size,
     nesting of any depth.
   * "a message": address `addr`, type string `tags` (C strings), laid out as
-    `msgBuf addr tags k rest` (address, k+1 NULs, ",tags", NUL, rest of the buffer);
+    `msgBuf addr tags k rest` (address, k+1 NULs, ",tags", NUL, rest of the buffer — any
+    bytes, also none: nothing behind the type string's NUL is read, fixes/C05-args-overread);
     `mkMsg_msgBuf`: every message laid out by `rtosc_amessage` has this form.  Digit runs
-    of the address are below 2^31 and the buffer behind the type string is at least as
-    long as the longest type alternative of the tree (both as in C05) — `InScope`.
+    of the address are below 2^31 (as in C05) — `InScope`.
   * "invokes a port's callback": an entry of the callback log that `dispatch` returns
     (`Call`: who, the `msg` pointer, `d.loc`, `d.obj`, `d.port` as the callback sees them).
     Callbacks of ports with a sub-table behave like `rRecurCb`.
@@ -31,10 +32,11 @@
     *any* heuristic search is such a function (`generate_establishes_HashOK`,
     `matcherOf_MkOK`): the guards carry the proof, not `find_pos` / `find_assoc`.
 
-  The model mirrors ports.cpp with five repairs applied (fixes/C04-01 … C04-05); what the
+  The model mirrors ports.cpp with six repairs applied (fixes/C04-01 … C04-06); what the
   unrepaired code did is recorded by the `…_counterexample` theorems at the end.
 -/
 import RtoscModel.Proofs.PortsRoot
+import RtoscModel.Proofs.PortsBuild
 namespace Rtosc.Ports
 open Rtosc Rtosc.Match Rtosc.Ports.Hash
 
@@ -63,12 +65,9 @@ structure InScope (P : PPorts) (addr tags rest : Bytes) : Prop where
   addr_nul : NulFree addr
   addr_idx : IdxBounded addr
   tags_nul : NulFree tags
-  args_fit : ∃ n, P.tab.argsFit n = true ∧ n ≤ tags.length + 1 + rest.length
 
 theorem InScope.msgOK {P : PPorts} {addr tags rest : Bytes} (h : InScope P addr tags rest) :
-    ∃ n, P.tab.argsFit n = true ∧ MsgOK addr tags rest n := by
-  obtain ⟨n, h1, h2⟩ := h.args_fit
-  exact ⟨n, h1, ⟨h.addr_nul, h.addr_idx, h.tags_nul, h2⟩⟩
+    MsgOK addr tags rest 0 := ⟨h.addr_nul, h.addr_idx, h.tags_nul⟩
 
 /-! ## The lookup tables -/
 
@@ -90,13 +89,12 @@ theorem hashed_sound {p : Pat} (hp : nameWf p = true) (hl : allLit p.segs = true
     (pm : Matcher) (j : Nat) (hfix : pm.fixed[j]? = some (splitName p.render).1)
     (hspec : pm.argSpec[j]? = some (splitName p.render).2)
     {addr tags : Bytes} (k : Nat) (rest : Bytes) (ha : NulFree addr) (hb : IdxBounded addr) (ht : NulFree tags)
-    (hfit : ArgsInBounds p (tags.length + 1 + rest.length))
     (hlk : lookup pm (msgBuf addr tags k rest) = some (.slot j true)) :
     ∃ e, full (p.render ++ [0]) (msgBuf addr tags k rest) = some (true, e) := by
   obtain ⟨hp0, hpne, hpna, _⟩ := nameWf_unpack hp
   rw [splitName_render hp0 hpne hpna] at hfix hspec
-  have := lookup_sound hp0 hpne hl pm j hfix hspec k rest ha ht hfit hlk
-  obtain ⟨e, he, _⟩ := full_render hp0 hpne hpna k rest ha hb ht hfit
+  have := lookup_sound hp0 hpne hl pm j hfix hspec k rest ha ht hlk
+  obtain ⟨e, he, _⟩ := full_render hp0 hpne hpna k rest ha hb ht
   exact ⟨e, by rw [msgBuf, he, this]⟩
 
 /-- **hashed_complete**: under `HashOK`, a port that `rtosc_match`es the message is the one
@@ -104,16 +102,15 @@ theorem hashed_sound {p : Pat} (hp : nameWf p = true) (hl : allLit p.segs = true
 theorem hashed_complete {names : List Bytes} {pm : Matcher} (hok : HashOK names pm)
     {p : Pat} (hp : nameWf p = true) (i : Nat) (hi : names[i]? = some p.render)
     {addr tags : Bytes} (k : Nat) (rest : Bytes) (ha : NulFree addr) (hb : IdxBounded addr) (ht : NulFree tags)
-    (hfit : ArgsInBounds p (tags.length + 1 + rest.length))
     (hm : ∃ e, full (p.render ++ [0]) (msgBuf addr tags k rest) = some (true, e)) :
     lookup pm (msgBuf addr tags k rest) = some (.slot i true) := by
   obtain ⟨hp0, hpne, hpna, _⟩ := nameWf_unpack hp
-  obtain ⟨e, he, _⟩ := full_render hp0 hpne hpna k rest ha hb ht hfit
+  obtain ⟨e, he, _⟩ := full_render hp0 hpne hpna k rest ha hb ht
   obtain ⟨e', he'⟩ := hm
   rw [msgBuf, he] at he'
   cases hmb : matchB p addr tags with
   | none => rw [hmb] at he'; simp at he'
-  | some t => exact lookup_complete hok hp0 hpne hpna i hi k rest ha ht hfit hmb
+  | some t => exact lookup_complete hok hp0 hpne hpna i hi k rest ha ht hmb
 
 /-- `refreshMagic` with any heuristic search is a table-construction function for which
     everything below holds; in particular the real one. -/
@@ -128,8 +125,8 @@ theorem dispatch_linear_iff (mk : List Bytes → Option Matcher) {P : PPorts} {a
     (h : InScope P addr tags rest) (k : Nat) (base : Bool) (d : RtData) (hd : d.loc = none) :
     ∃ log d', dispatch mk P.render (msgBuf addr tags k rest) d base = some (log, d') ∧
       ∀ w, w ∈ log.map (·.who) ↔ AnswersRoot P (rootAddr base addr) tags w := by
-  obtain ⟨n, hfit, hm⟩ := h.msgOK
-  obtain ⟨log, d', hdisp, hlog, _⟩ := some_pair (dispatch_noLoc mk h.wf hfit k hm base d hd)
+  have hm := h.msgOK
+  obtain ⟨log, d', hdisp, hlog, _⟩ := some_pair (dispatch_noLoc mk h.wf k hm base d hd)
   refine ⟨log, d', hdisp, ?_⟩
   subst hlog
   intro w
@@ -178,9 +175,9 @@ theorem loc_independent {mk : List Bytes → Option Matcher} (hmk : MkOK mk) {P 
       dispatch mk P.render (msgBuf addr tags k rest) dL base = some (logL, dL') ∧
       dispatch mk P.render (msgBuf addr tags k rest) dN base = some (logN, dN') ∧
       views logL = views logN := by
-  obtain ⟨n, hfit, hm⟩ := h.msgOK
-  obtain ⟨logL, dL', hdL, hlogL, _⟩ := some_pair (dispatch_loc hmk h.wf hfit k hm base dL L0 hr.loc hr.size)
-  obtain ⟨logN, dN', hdN, hlogN, _⟩ := some_pair (dispatch_noLoc mk h.wf hfit k hm base dN hr.noloc)
+  have hm := h.msgOK
+  obtain ⟨logL, dL', hdL, hlogL, _⟩ := some_pair (dispatch_loc hmk h.wf k hm base dL L0 hr.loc hr.size)
+  obtain ⟨logN, dN', hdN, hlogN, _⟩ := some_pair (dispatch_noLoc mk h.wf k hm base dN hr.noloc)
   refine ⟨logL, dL', logN, dN', hdL, hdN, ?_⟩
   subst hlogL hlogN
   obtain ⟨v1, v2, v3⟩ := sem_views P.tab [] 0 dL.obj (rootLoc base L0) (rootAddr base addr) tags
@@ -213,8 +210,8 @@ theorem dispatch_unique {mk : List Bytes → Option Matcher} (hmk : MkOK mk) {P 
       dispatch mk P.render (msgBuf addr tags k rest) dN base = some (logN, dN') ∧
       (logL.map (·.who)).Nodup ∧ (logN.map (·.who)).Nodup := by
   obtain ⟨logL, dL', logN, dN', h1, h2, hv⟩ := loc_independent hmk h k base hr
-  obtain ⟨n, hfit, hm⟩ := h.msgOK
-  have h2' := dispatch_noLoc mk h.wf hfit k hm base dN hr.noloc
+  have hm := h.msgOK
+  have h2' := dispatch_noLoc mk h.wf k hm base dN hr.noloc
   rw [h2] at h2'
   have hN : (logN.map (·.who)).Nodup := by
     have hlog := congrArg (fun o => o.map (·.1)) h2'
@@ -250,8 +247,8 @@ theorem dispatch_loc_sem {mk : List Bytes → Option Matcher} (hmk : MkOK mk) {P
       some (finLoc P.dflt [] d.obj (rootAddr base addr ++ 0 :: msgTail k tags rest)
         (semLoc P.tab [] 0 d.obj (rootLoc base L0) (rootAddr base addr) tags (msgTail k tags rest)
           (rootDataLoc base d) false)) := by
-  obtain ⟨n, hfit, hm⟩ := h.msgOK
-  exact dispatch_loc hmk h.wf hfit k hm base d L0 hd hsz
+  have hm := h.msgOK
+  exact dispatch_loc hmk h.wf k hm base d L0 hd hsz
 
 /-- **loc_restored**: after the dispatch `loc` holds what it held when the root table was
     entered: "/" after a base dispatch (or when it was empty), else its old content. -/
@@ -379,6 +376,38 @@ theorem loc_in_bounds {mk : List Bytes → Option Matcher} (hmk : MkOK mk) {P : 
       · exact hhigh
   omega
 
+/-! ## Tables built by `ClonePorts` / `MergePorts`; enumerated recursion callbacks
+
+The theorems above hold for every table, hence for the ones these constructors build; what
+the constructors themselves do is modelled in Ports/Build.lean and compared with the code on
+every run (`T…c[…]{…}` / `T…m[…]{…}` tables).  Which callback object a port of the new table
+carries is checked on the implementation only (source tables have callbacks of their own). -/
+
+/-- **clone_names**: `ClonePorts(src, list)` has exactly the listed names, in list order. -/
+theorem clone_names (src : List Entry) (list : List Bytes) (res : List Entry)
+    (h : clonePorts src list = some res) : res.map Entry.name = list :=
+  clonePorts_names src list res h
+
+/-- **merge_no_repeats**: `MergePorts` keeps only ports of the merged tables and never two
+    with the same name. -/
+theorem merge_no_repeats (parts : List (List Entry)) :
+    ((mergePorts parts).map Entry.name).Nodup ∧ ∀ e ∈ mergePorts parts, ∃ p ∈ parts, e ∈ p :=
+  ⟨mergePorts_nodup parts, mergePorts_sub parts⟩
+
+/-- **recurs_index**: the element `rRecursCb` / `rRecurspCb` hand down (`&obj->name[idx]`,
+    `rBOILS_BEGIN`) for a port `lit#N…` and a message spelling `lit`, a run of digits and then
+    a non-digit is the value of that run — the index the address spells for the `#N`.
+    (Partial: the hand-down of that element through `Ports::dispatch` is compared with the
+    code on the `R` lines, it is not part of the `dispatch` model — see `obj_handed_down`.) -/
+theorem recurs_index (lit rest ds tail : Bytes) (c : UInt8)
+    (hlit : ∀ x ∈ lit, x ≠ 35) (hds : ∀ x ∈ ds, isDigit x = true) (hc : isDigit c = false) :
+    Sugar.recursIdx (lit ++ 35 :: rest) (lit ++ (ds ++ c :: tail)) = some (decVal ds) :=
+  Sugar.recursIdx_spelled lit rest ds tail c hlit hds hc
+
+example : Sugar.recursIdx [109, 105, 100, 115, 35, 52, 47] ([109, 105, 100, 115, 48, 51, 47, 120, 0]) = some 3 := by decide
+example : (mergePorts [[.leaf [97], .leaf [98]], [.leaf [98], .leaf [99]]]).map Entry.name = [[97], [98], [99]] := by decide
+example : (clonePorts [.leaf [97], .leaf [98], .leaf [99]] [[99], [97]]).map (·.map Entry.name) = some [[99], [97]] := by decide
+
 /-! ## The driver's cache -/
 
 /-- the driver builds the lookup tables of a tree once per op line: the cached function is
@@ -400,7 +429,7 @@ theorem cachedMk_eq (f : List Bytes → Option Matcher) (tables : List (List Byt
         rw [this] at h
         exact ih h
 
-/-! ## What the unrepaired code did (fixes/C04-01 … C04-05) -/
+/-! ## What the unrepaired code did (fixes/C04-01 … C04-06) -/
 
 /-- table {a, cab} -/
 def f3Names : List Bytes := [[97], [99, 97, 98]]
@@ -480,6 +509,21 @@ theorem default_handler_counterexample :
     (dispatchReal ⟨k8Table, true⟩ k8Msg { k8Data with loc := none } true).map (fun r => r.1.map (·.who)) = some [.dflt []] := by
   refine ⟨?_, ?_, ?_⟩ <;> decide +kernel
 
+/-- table {"\xc3\xa9x", "\xc3\xa9y"} ("éx", "éy") -/
+def f20Names : List Bytes := [[0xc3, 0xa9, 120], [0xc3, 0xa9, 121]]
+def f20Msg : Bytes := mkMsg [0xc3, 0xa9, 121] [] [0, 0, 0, 0]
+
+/-- **high_byte_name_counterexample** (C04-06): `find_pos` finds a position for {éx, éy}, so the
+    unrepaired `refreshMagic` went on to `find_assoc`, which executes `assoc[i] = j` for every
+    character `i` of the names — 0xc3 is the `char` -61: a write in front of the 127-entry
+    vector (`none`: the model does not define it).  The repaired `generate_minimal_hash` does not
+    hash a table with such a name; the linear search finds the port. -/
+theorem high_byte_name_counterexample :
+    matcherOfUnfixed realSearch f20Names = none ∧
+    (matcherOf realSearch f20Names).map (·.pos) = some [] ∧
+    (full ([0xc3, 0xa9, 121] ++ [0]) f20Msg).map (·.1) = some true := by
+  refine ⟨?_, ?_, ?_⟩ <;> decide +kernel
+
 /-! ## Non-vacuity -/
 
 /-- `a`, `b#3/` → { `c:i`, `d/e`, default handler }, `ab::f`, default handler -/
@@ -502,8 +546,7 @@ theorem exScope : InScope exTree exAddr [105] [0, 0, 0, 0] :=
   { wf := by decide
     addr_nul := by unfold NulFree exAddr; decide
     addr_idx := idxBounded_of_check (by decide)
-    tags_nul := by unfold NulFree; decide
-    args_fit := ⟨1, by decide, by decide⟩ }
+    tags_nul := by unfold NulFree; decide }
 
 /-- the specification names exactly the sub-tree port `b#3/` and its port `c:i` -/
 example : AnswersRoot exTree (rootAddr true exAddr) [105] (.port [1, 0]) := by
